@@ -781,6 +781,9 @@ class CSSSerializer:
                         )
                     else:
                         val = self._indentblock(val, min(1, len(stacks) + 1))
+                if 'HASH' == type_:
+                    # may be an id as well as a colour: never shortened
+                    type_ = 'hash'
                 # APPEND
                 if stacks:
                     stacks[-1].append(val, type_)
